@@ -11,10 +11,12 @@ Definition rank_entry (a : N) (v : validator) : option (N * N) :=
 Definition rebuild_rank (vals : gmap N validator) : gset (N * N) :=
   list_to_set (omap (fun av => rank_entry (fst av) (snd av)) (map_to_list vals)).
 
-Definition index_entries_of (a : N) (v : validator) : list (N * N * Z) :=
-  if in_ranking_status (v_status v) then map (fun ta => ((fst ta, a), snd ta)) (map_to_list (v_hold v)) else [].
+(* (token, validator) -> amount for the holdings of ranked validators *)
+Definition hold_if_ranked (v : validator) : option (gmap N Z) :=
+  if in_ranking_status (v_status v) then Some (v_hold v) else None.
+Definition swap_key (p : N * N) : N * N := (snd p, fst p).
 Definition rebuild_index (vals : gmap N validator) : gmap (N * N) Z :=
-  list_to_map (flat_map (fun av => index_entries_of (fst av) (snd av)) (map_to_list vals)).
+  kmap swap_key (gmap_uncurry (omap hold_if_ranked vals)).
 
 Definition rebuild_set (vals : gmap N validator) : gmap N N :=
   omap (fun v => match v_status v with Active => Some (v_power v) | _ => None end) vals.
